@@ -213,6 +213,10 @@ theorem order_analysis_sound (t : TableMeta) (lay : List RowSet) (hc : ScanContr
       subst h
       exact List.Pairwise.filter _ (ih r hp)
   | proj cs p ih => exact ih rows h
+  | empty p _ =>
+    simp only [execPlan, Out.ok.injEq] at h
+    subst h
+    simp [SortedBy]
   | order ks p _ =>
     simp only [execPlan] at h
     cases hp : execPlan lay p with
